@@ -8,13 +8,13 @@
 //   * any other state is compared bit-wise (serialised bytes) with the harness's own
 //     space->interpolate(s1, s2, (double)j/(double)n) for j = 0..n                          -> smallest matching j
 //     (amb counts queries that matched more than one j; '?' = matches none: not a subdivision point)
-//   * in R^1 with s1 = 0 the index is additionally decoded arithmetically, j = round(x / L) with L the
-//     longest valid segment, and must agree with the table ('?' otherwise).
+//   * in R^1 with s1 = 0 the index is additionally decoded arithmetically, j = round(x * n / s2), and must
+//     agree with the table ('?' otherwise).
 // header:  motion space=<r1|rn|so2|se2|cmpd|cmpd2|dubins|dubinssym|rs|owen> validator=<default|discrete>
 //                 frac=<f> lo=<f> hi=<f> dim=<d> f=<k,..> rho=<f>
 //          f lists the segment-count factor of every space node in pre-order (compound first, then its parts).
 // ops:     invalid idx <j>*        -> ok        (scripted predicate: these subdivision indices are invalid)
-//          hint <k>                -> ok        (segment count for the model where it cannot compute distances)
+//          hint <k> [<0|1>]        -> ok        (segment count [and Owen getPath outcome] for the model where it cannot compute distances)
 //          seg <st> <st>           -> n=<k> dist=<f> L=<f>
 //          cm2 <st> <st>           -> v=<0|1> n=<k> q=<j,..|-> cnt=<a>/<b>-><a'>/<b'> amb=<k>
 //          cm3 <st> <st>           -> v=<0|1> n=<k> lv=<f|untouched> lvs=<eq|ne|untouched> q=.. cnt=.. amb=..
@@ -74,7 +74,7 @@ public:
             if (r1Decode && j >= 0)
             {
                 double x = st->as<ob::RealVectorStateSpace::StateType>()->values[0];
-                long jj = std::lround(x / r1L);
+                long jj = std::lround(x * (double)n / r1End);
                 if (jj != j)
                     j = -1;
             }
@@ -94,7 +94,7 @@ public:
     long n = 0;
     std::map<std::string, std::vector<long>> table;
     bool r1Decode = false;
-    double r1L = 1.0;
+    double r1End = 1.0;
 };
 
 static std::string qstr(const std::vector<long> &q)
@@ -271,7 +271,6 @@ int main()
     if (spn == "r1")
     {
         svc->r1Decode = true;
-        svc->r1L = space->getLongestValidSegmentLength();
     }
 
     auto parseState = [&](const std::vector<std::string> &t, size_t &i, ob::State *dst) -> bool {
@@ -315,7 +314,10 @@ int main()
             }
         // the r1 arithmetic decode only makes sense for s1 = 0
         if (spn == "r1")
-            svc->r1Decode = s1->as<ob::RealVectorStateSpace::StateType>()->values[0] == 0.0;
+        {
+            svc->r1End = s2->as<ob::RealVectorStateSpace::StateType>()->values[0];
+            svc->r1Decode = s1->as<ob::RealVectorStateSpace::StateType>()->values[0] == 0.0 && svc->r1End != 0.0;
+        }
         return n;
     };
     auto cnt = [&](unsigned a0, unsigned b0) {
@@ -351,7 +353,8 @@ int main()
             svc->invalid = inv;
             std::cout << "ok\n";
         }
-        else if (op == "hint" && t.size() == 2 && vp::parseNat(t[1]))
+        else if (op == "hint" && ((t.size() == 2 && vp::parseNat(t[1])) ||
+                                  (t.size() == 3 && vp::parseNat(t[1]) && (t[2] == "0" || t[2] == "1"))))
             std::cout << "ok\n";
         else if (op == "seg" || op == "cm2" || op == "cm3" || op == "cm3n")
         {
@@ -364,7 +367,10 @@ int main()
             if (op == "seg")
             {
                 std::cout << "n=" << space->validSegmentCount(s1, s2) << " dist=" << vp::bits(space->distance(s1, s2))
-                          << " L=" << vp::bits(space->getLongestValidSegmentLength()) << "\n";
+                          << " L=" << vp::bits(space->getLongestValidSegmentLength());
+                if (spn == "owen")
+                    std::cout << " path=" << (space->as<ob::OwenStateSpace>()->getPath(s1, s2) ? 1 : 0);
+                std::cout << "\n";
                 continue;
             }
             long n = prepare();
